@@ -165,6 +165,18 @@ Proof.
       apply describes_toks. rewrite <- Hst. apply Hdesc. exact H.
 Qed.
 
+(* a statement proved for the scripted reader carries over to the real decoder *)
+Lemma via_script st0 s0 inp sc fin bs dests :
+  describes st0 inp sc -> fin <> EUnknown ->
+  reads dscript dec_script Sess cdec cf sch (r_init dscript Sess inp sc s0) dests
+    = spec_reads fin bs [] (map flen dests) ->
+  READS (r_init St Sess inp st0 s0) dests = spec_reads fin bs [] (map flen dests).
+Proof.
+  intros D Hf E.
+  rewrite (reads_described St dec_tok Sess cdec cf sch st0 s0 inp sc dests D); [exact E|].
+  rewrite E. intro Hin. apply Hf. symmetry. exact (spec_reads_errs _ _ _ _ _ Hin).
+Qed.
+
 (* ================================================================ ROUND TRIP *)
 Theorem roundtrip_reads st0 s0 batches dests :
   Forall (wf_frame sch) batches -> Forall (wf_frame sch) dests ->
@@ -175,8 +187,8 @@ Proof.
   destruct (writes_good batches (w_init St Sess st0 s0)) as (sc & bytes & Hout & Hgood & Hdesc).
   rewrite Hout. cbn [wout w_init app].
   rewrite <- (app_nil_r bytes).
-  rewrite (reads_described St dec_tok Sess cdec cf sch st0 s0 (bytes ++ []) (sc ++ [], SIoEOF)).
-  2:{ apply Hdesc. constructor. apply H_dec_nil. }
+  apply (via_script st0 s0 (bytes ++ []) (sc ++ [], SIoEOF)); [|discriminate|].
+  { apply Hdesc. apply desc_fail. apply H_dec_nil. }
   apply (reads_good Sess cenc cdec cf H_codec sch EEOF ([], SIoEOF) []
            (wsess (fold_left WRITE batches (w_init St Sess st0 s0)))) with (s := s0) (sc := sc); try assumption; try reflexivity.
   - (* the tail: end of input *)
@@ -213,8 +225,8 @@ Proof.
   set (tsc := (batch_entries f' u0 es c uc ++ scq, SIoEOF)).
   set (tinp := bX wk f' ++ bY wk f ++ Q).
   rewrite Hout.
-  rewrite (reads_described St dec_tok Sess cdec cf sch st0 s0 (bytes ++ tinp) (sc ++ fst tsc, snd tsc)).
-  2:{ apply Hdesc. subst tsc tinp. cbn [fst snd].
+  apply (via_script st0 s0 (bytes ++ tinp) (sc ++ fst tsc, snd tsc)); [|discriminate|].
+  { apply Hdesc. subst tsc tinp. cbn [fst snd].
       assert (E : batch_entries f' u0 es c uc = script_of (wst wk) (bt wk f' ++ [TCrc c])).
       { unfold batch_entries, bt, batch_toks. simpl. f_equal. rewrite script_of_app. simpl.
         change (st_after (snd (enc_tok (wst wk) (TLen (Z.of_nat (flen f'))))) (cols_toks Sess cenc (wsess wk) sch f'))
@@ -226,7 +238,7 @@ Proof.
       rewrite st_after_app, Hst. cbn [st_after].
       replace (snd (enc_tok (st_after (wst wk) (bt wk f)) (TCrc c))) with (wst wk1)
         by (subst wk1; rewrite write_spec; reflexivity).
-      rewrite HQ, <- (app_nil_r bq), <- (app_nil_r scq). apply Hdescq. constructor. apply H_dec_nil. }
+      rewrite HQ, <- (app_nil_r bq), <- (app_nil_r scq). apply Hdescq. apply desc_fail. apply H_dec_nil. }
   apply (reads_good Sess cenc cdec cf H_codec sch EIntegrity tsc tinp (wsess wk)) with (s := s0) (sc := sc);
     try assumption; try reflexivity.
   - (* the tail: batch k with a checksum that does not match *)
@@ -280,12 +292,12 @@ Definition full_toks (w : W) f : list token := bt w f ++ [TCrc (bc w f)].
 Lemma truncation_reads st0 s0 pre f dests i p term :
   let wk := fold_left WRITE pre (w_init St Sess st0 s0) in
   Forall (wf_frame sch) pre -> wf_frame sch f -> Forall (wf_frame sch) dests ->
-  1 <= i < length (full_toks wk f) ->
+  1 <= i < length (full_toks wk f) -> term <> SStop ->
   dec_tok (st_after (wst wk) (firstn i (full_toks wk f))) p = fail_of St term ->
   READS (r_init St Sess (wout wk ++ bytes_of (wst wk) (firstn i (full_toks wk f)) ++ p) st0 s0) dests
   = spec_reads (cut_err_tok cf term (nth i (full_toks wk f) dflt)) pre [] (map flen dests).
 Proof.
-  intros wk Hpre Hf Hd Hi Hfail.
+  intros wk Hpre Hf Hd Hi Hterm Hfail.
   destruct (writes_good pre (w_init St Sess st0 s0)) as (sc & bytes & Hout & Hgood & Hdesc).
   fold wk in Hout, Hgood, Hdesc. cbn [wout w_init app] in Hout.
   set (u0 := length (fst (enc_tok (wst wk) (TLen (Z.of_nat (flen f)))))).
@@ -295,9 +307,10 @@ Proof.
   set (tsc := (firstn i (batch_entries f u0 es c uc), term)).
   set (tinp := bytes_of (wst wk) (firstn i (full_toks wk f)) ++ p).
   rewrite Hout.
-  rewrite (reads_described St dec_tok Sess cdec cf sch st0 s0 (bytes ++ tinp) (sc ++ fst tsc, snd tsc)).
-  2:{ apply Hdesc. subst tsc tinp. cbn [fst snd]. rewrite E, script_of_firstn.
-      rewrite <- (app_nil_r (script_of _ _)). apply describes_toks. constructor. exact Hfail. }
+  apply (via_script st0 s0 (bytes ++ tinp) (sc ++ fst tsc, snd tsc)).
+  { apply Hdesc. subst tsc tinp. cbn [fst snd]. rewrite E, script_of_firstn.
+      rewrite <- (app_nil_r (script_of _ _)). apply describes_toks. apply desc_fail. exact Hfail. }
+  { unfold cut_err_tok. destruct (nth i (full_toks wk f) dflt), term, (fix_eof cf); try discriminate; congruence. }
   apply (reads_good Sess cenc cdec cf H_codec sch _ tsc tinp (wsess wk)) with (s := s0) (sc := sc);
     try assumption; try reflexivity.
   - intros r dest Hstr Hi' Hs He Hbuf Hwd Hsc.
@@ -323,6 +336,7 @@ Proof.
   intros wk Hpre Hf Hd Hi Hpq Hp Hq. subst wk.
   rewrite (truncation_reads st0 s0 pre f dests i p SUnexpected); try assumption.
   - destruct (nth i (full_toks _ f) dflt); reflexivity.
+  - discriminate.
   - simpl. eapply H_dec_trunc; eassumption.
 Qed.
 
@@ -337,7 +351,82 @@ Proof.
   intros wk Hpre Hf Hd Hi. subst wk.
   rewrite <- (app_nil_r (bytes_of _ _)).
   apply (truncation_reads st0 s0 pre f dests i [] SIoEOF); try assumption.
-  simpl. apply H_dec_nil.
+  - discriminate.
+  - simpl. apply H_dec_nil.
+Qed.
+
+(* cut strictly inside the length token of batch k: io.ErrUnexpectedEOF under every configuration *)
+Theorem truncation_in_length_token st0 s0 pre f dests p q :
+  let wk := fold_left WRITE pre (w_init St Sess st0 s0) in
+  Forall (wf_frame sch) pre -> Forall (wf_frame sch) dests ->
+  fst (enc_tok (wst wk) (TLen (Z.of_nat (flen f)))) = p ++ q -> p <> [] -> q <> [] ->
+  READS (r_init St Sess (wout wk ++ p) st0 s0) dests = spec_reads EUnexpected pre [] (map flen dests).
+Proof.
+  intros wk Hpre Hd Hpq Hp Hq.
+  destruct (writes_good pre (w_init St Sess st0 s0)) as (sc & bytes & Hout & Hgood & Hdesc).
+  fold wk in Hout, Hgood, Hdesc. cbn [wout w_init app] in Hout.
+  rewrite Hout.
+  apply (via_script st0 s0 (bytes ++ p) (sc ++ [], SUnexpected)); [|discriminate|].
+  { apply Hdesc. apply desc_fail. simpl. eapply H_dec_trunc; eassumption. }
+  apply (reads_good Sess cenc cdec cf H_codec sch EUnexpected ([], SUnexpected) p (wsess wk)) with (s := s0) (sc := sc);
+    try assumption; try reflexivity.
+  - intros r dest Hst Hi Hs He Hbuf Hwd Hsc.
+    unfold read. rewrite He, Hbuf. cbn [Nat.eqb].
+    erewrite rd_end by (cbn [rst]; exact Hst). eexists; split; reflexivity.
+  - apply Hgood.
+Qed.
+
+(* NEGATIVE LENGTH (repair 1): after the batches before it, a negative batch length is
+   an error for ever, whatever follows it in the stream *)
+Theorem negative_length_reads st0 s0 pre n Q dests :
+  let wk := fold_left WRITE pre (w_init St Sess st0 s0) in
+  fix_len cf = true -> (n < 0)%Z ->
+  Forall (wf_frame sch) pre -> Forall (wf_frame sch) dests ->
+  READS (r_init St Sess (wout wk ++ fst (enc_tok (wst wk) (TLen n)) ++ Q) st0 s0) dests
+  = spec_reads EBadLen pre [] (map flen dests).
+Proof.
+  intros wk Hfix Hn Hpre Hd.
+  destruct (writes_good pre (w_init St Sess st0 s0)) as (sc & bytes & Hout & Hgood & Hdesc).
+  fold wk in Hout, Hgood, Hdesc. cbn [wout w_init app] in Hout.
+  rewrite Hout.
+  set (u := length (fst (enc_tok (wst wk) (TLen n)))).
+  set (tinp := fst (enc_tok (wst wk) (TLen n)) ++ Q).
+  apply (via_script st0 s0 (bytes ++ tinp) (sc ++ [(TLen n, u)], SStop)); [|discriminate|].
+  { apply Hdesc. subst tinp u. eapply desc_ok; [apply H_dec_enc|]. apply desc_stop. }
+  apply (reads_good Sess cenc cdec cf H_codec sch EBadLen ([(TLen n, u)], SStop) tinp (wsess wk)) with (s := s0) (sc := sc);
+    try assumption; try reflexivity.
+  - intros r dest Hst Hi Hs He Hbuf Hwd Hsc.
+    unfold read. rewrite He, Hbuf. cbn [Nat.eqb].
+    erewrite rd_pop by (cbn [rst]; exact Hst).
+    rewrite Hfix. replace (Z.ltb n 0) with true by (symmetry; apply Z.ltb_lt; exact Hn).
+    eexists; split; reflexivity.
+  - apply Hgood.
+Qed.
+
+(* LENGTH MISMATCH (repair 3): the length token says n' but the first column, gob-encoded,
+   carries another number of elements (what a damaged length token amounts to): after the
+   batches before it an integrity error for ever, whatever follows *)
+Theorem length_mismatch_reads st0 s0 pre n' cl Q dests k ks :
+  let wk := fold_left WRITE pre (w_init St Sess st0 s0) in
+  fix_collen cf = true -> sch = k :: ks -> length cl <> n' ->
+  Forall (wf_frame sch) pre -> Forall (wf_frame sch) dests ->
+  READS (r_init St Sess (wout wk ++ bytes_of (wst wk) [TLen (Z.of_nat n'); TFlag false; TCol cl] ++ Q) st0 s0) dests
+  = spec_reads EIntegrity pre [] (map flen dests).
+Proof.
+  intros wk Hfix Hsch Hne Hpre Hd.
+  destruct (writes_good pre (w_init St Sess st0 s0)) as (sc & bytes & Hout & Hgood & Hdesc).
+  fold wk in Hout, Hgood, Hdesc. cbn [wout w_init app] in Hout.
+  rewrite Hout.
+  set (ts := [TLen (Z.of_nat n'); TFlag false; TCol cl]).
+  set (tinp := bytes_of (wst wk) ts ++ Q).
+  apply (via_script st0 s0 (bytes ++ tinp) (sc ++ script_of (wst wk) ts, SStop)); [|discriminate|].
+  { apply Hdesc. subst tinp. rewrite <- (app_nil_r (script_of _ _)). apply describes_toks. apply desc_stop. }
+  apply (reads_good Sess cenc cdec cf H_codec sch EIntegrity (script_of (wst wk) ts, SStop) tinp (wsess wk))
+    with (s := s0) (sc := sc); try assumption; try reflexivity.
+  - intros r dest Hst Hi Hs He Hbuf Hwd Hsc.
+    eapply (read_len_mismatch Sess cdec cf sch r n' _ _ cl _ ([], SStop) k ks dest); try eassumption.
+    rewrite Hst. reflexivity.
+  - apply Hgood.
 Qed.
 
 End Codec.
